@@ -78,4 +78,6 @@ def run_items(modname, items, workers=None, limit=None, progress=True):
             if progress and time.time() - last > 30:
                 last = time.time()
                 print("  .. %d/%d items, %.0fs" % (done, len(items), last - t0), file=sys.stderr, flush=True)
+        pool.close()
+        pool.join()        # workers leave through their normal exit path
     return out
